@@ -215,6 +215,81 @@ class Obj(Ty):
         ]
 
 
+class FrameT(Ty):
+    """A pd.DataFrame of static shape.  cols: name -> Ty; labels: 'default' (0..n-1) or 'symbolic'
+    (pairwise distinct Int terms: the state a list is in after filters / sorts / stacking)."""
+
+    def __init__(self, cols, n, labels="default"):
+        self.cols, self.n, self.labels = cols, n, labels
+
+    def make(self, name, ctx):
+        from .frames import SFrame
+
+        cols = {c: [t.make(f"{name}.{c}[{r}]", ctx) for r in range(self.n)] for c, t in self.cols.items()}
+        if self.labels == "symbolic":
+            labels = [z3.Int(f"{name}.label[{r}]") for r in range(self.n)]
+            if self.n > 1:
+                ctx.assume(z3.Distinct(*labels))
+        else:
+            labels = list(range(self.n))
+        return SFrame(cols, labels)
+
+    def concretize(self, name, model):
+        import pandas as pd
+
+        data = {c: [t.concretize(f"{name}.{c}[{r}]", model) for r in range(self.n)] for c, t in self.cols.items()}
+        if self.labels == "symbolic":
+            labels = [_mval(model, z3.Int(f"{name}.label[{r}]")).as_long() for r in range(self.n)]
+        else:
+            labels = list(range(self.n))
+        return pd.DataFrame(data, index=labels, columns=list(self.cols))
+
+
+def _col_ty(name, dtype, default):
+    if name in ("offset", "length", "bpm", "metronome", "multiplier"):
+        return Real()
+    if dtype in ("float",):
+        return Real()
+    if dtype in ("int",):
+        return Int()
+    if dtype in ("bool",):
+        return Bool()
+    return Const(default)
+
+
+class TimedListT(Ty):
+    """A reamber list object (any TimedList subclass) over a FrameT whose columns are the class's declared
+    props, in the class's own column order (read from the real class)."""
+
+    def __init__(self, cls, n, labels="default", overrides=None):
+        self._cls, self.n, self.labels, self.overrides = cls, n, labels, overrides or {}
+
+    @property
+    def cls(self):
+        if isinstance(self._cls, str):
+            self._cls = resolve(self._cls)
+        return self._cls
+
+    def frame_ty(self):
+        cls = self.cls
+        order = list(cls([]).df.columns)
+        props = cls._item_class()._props
+        cols = {}
+        for c in order:
+            dt, default = props[c]
+            cols[c] = self.overrides.get(c) or _col_ty(c, dt, default)
+        return FrameT(cols, self.n, self.labels)
+
+    def make(self, name, ctx):
+        return SObj(self.cls, {"_df": self.frame_ty().make(name + ".df", ctx)})
+
+    def concretize(self, name, model):
+        return self.cls(self.frame_ty().concretize(name + ".df", model))
+
+    def shapes(self):
+        return [self]
+
+
 # --------------------------------------------------------------------------- target resolution
 
 
